@@ -127,6 +127,13 @@ theorem C03_single_changed_value (p p' : Prog) (pre post : List (String × Optio
     getD (planOutputs [] p) k ≠ getD (planOutputs [] p') k ↔ k = .outArgs a ((proj a pre).length + 1) := by
   rw [planOutputs_eq_numberK, planOutputs_eq_numberK, hp, hp']; exact numberK_single_edit pre post a v v' hv k
 
+/-- One entry per call: the outputs of a run hold pairwise distinct keys (no call's entry is overwritten by another's) and as
+many entries as the run made output calls whose value could be captured. -/
+theorem C03_one_entry_per_call (p : Prog) :
+    ((planOutputs [] p).map (·.1)).Nodup ∧
+    (planOutputs [] p).length = ((sendsOf p).filter (fun x => x.2.isSome)).length := by
+  rw [planOutputs_eq_numberK]; exact ⟨numberK_nodup _ _, numberK_length _ _⟩
+
 /-- Replay side, whole run: what a replay of ANY program `p'` against ANY recording `r` captures is the recorder numbering of
 the output calls `p'` makes along its replay path (each interception answered from `r` or by the missing-key policy; no site
 opted in to run-original, so no body runs) - one entry per call whose value could be captured, appended in call order. -/
